@@ -11,6 +11,7 @@ type Prop struct {
 // Registry maps property ids to their checks.
 var Registry = map[string]Prop{
 	"C01": {C01, c01Replay},
+	"C04": {C04, c04Replay},
 	"C09": {C09, c09Replay},
 	"C10": {C10, c10Replay},
 	"C11": {C11, c11Replay},
